@@ -3,7 +3,7 @@ C18 - thread pool: each job served once or refused; workers bounded; close is cl
 Engine T at source-line granularity inside svr_threads.Pool / Worker (real classes, real threads).
 """
 from vf import sched as S
-from vf.common import install_shims, reset_worker_counter, coverage_from_stats, explore_parallel, run_unit
+from vf.common import install_shims, reset_worker_counter, coverage_from_stats, explore_parallel, run_unit, FormattingLogSink
 from vf.explore import Chooser, HarnessError
 
 PID = "C18"
@@ -50,6 +50,9 @@ def make_run(cfg):
         reset_worker_counter()
         sch = S.Scheduler(chooser, watch=watch)
         sch.fail_starts = tuple(cfg.get("fail_start", ()))
+        logsink = FormattingLogSink() if cfg.get("logging") else None
+        if logsink is not None:
+            logsink.__enter__()
         sch.install()
         log = []          # (event, job)
         state = {"pool": None, "closed_returned": False, "close_started": False, "max_count": 0,
@@ -241,6 +244,8 @@ def make_run(cfg):
             svr_threads.Pool.notify_done = orig_notify
             svr_threads.Worker.process = orig_process
             sch.teardown()
+            if logsink is not None:
+                logsink.__exit__()
         return res
     return run_fn
 
@@ -418,6 +423,9 @@ def configs(tier):
                     budgets = [(1, 3)]
             for (p, r) in budgets:
                 out.append({"script": name, "min": mn, "max": mx, "p": p, "r": r, "horizon": 3000})
+                if name in ("long-long-release-short-close", "long-short-release-close") and mx <= 2 and mn == 1:
+                    # the same with debug logging switched on (every log call's arguments are formatted while the pool's locks are held)
+                    out.append({"script": name, "min": mn, "max": mx, "p": min(p, 1), "r": r, "horizon": 3000, "logging": True})
                 if name == "long-short-short-release-close" and mx > mn:
                     # the first Thread.start() by which the pool wants to grow fails (start 1 is the accept thread, then the MIN initial workers)
                     out.append({"script": name, "min": mn, "max": mx, "p": p, "r": r, "horizon": 3000, "fail_start": [mn + 2]})
